@@ -142,6 +142,46 @@ class Ctx:
         self._last_sig: Any = None
         self.classify: Optional[Callable] = None
 
+    # -- results handed to the caller stay the caller's ---------------------
+    def hold(self, monitor: str, label: str, value: Any, detail: Any = None) -> None:
+        """Keep `value` (an array, or a list/tuple of arrays, exactly as the
+        library returned it) by reference together with a snapshot; every held
+        value is compared with its snapshot when the case ends (check_held), i.e.
+        after all later calls on the same objects."""
+        import numpy as _np
+
+        def snap(v):
+            if isinstance(v, (list, tuple)):
+                return [snap(x) for x in v]
+            if isinstance(v, _np.ndarray) and v.dtype == object:
+                return [snap(x) for x in v.ravel()]
+            return _np.array(v, copy=True)
+        held = self.__dict__.setdefault("_held", [])
+        if len(held) < 64:
+            held.append((monitor, label, value, snap(value), detail))
+
+    def check_held(self) -> None:
+        import numpy as _np
+
+        def same(v, s0):
+            if isinstance(v, (list, tuple)):
+                return len(v) == len(s0) and all(same(a, b) for a, b in zip(v, s0))
+            if isinstance(v, _np.ndarray) and v.dtype == object:
+                return v.size == len(s0) and all(same(a, b) for a, b in zip(v.ravel(), s0))
+            a = _np.asarray(v)
+            return a.shape == s0.shape and bool(_np.array_equal(a, s0, equal_nan=True)
+                                                if a.dtype.kind in "fc" else
+                                                _np.array_equal(a, s0))
+        held = self.__dict__.get("_held", [])
+        self.__dict__["_held"] = []
+        for monitor, label, value, s0, detail in held:
+            try:
+                ok = same(value, s0)
+            except Exception:           # noqa: BLE001 - incomparable = changed
+                ok = False
+            self.ev(monitor, ok, cls="earlier-result-changed-by-later-call:" + label,
+                    detail=detail)
+
     # -- recording ---------------------------------------------------------
     def ev(self, monitor: str, ok: Any, cls: Optional[str] = None,
            detail: Any = None, n: int = 1) -> bool:
@@ -369,7 +409,9 @@ def run_one(mod, ctx: Ctx, name: str, idx: int) -> None:
         old = None
     try:
         _ARMED[0] = old is not None
+        ctx.__dict__["_held"] = []
         g.fn(ctx, rng, idx)
+        ctx.check_held()
     except CaseTimeout:
         ctx.harness_errors.append("watchdog: gen %s case %d exceeded %.0f s" % (name, idx, limit))
     except Exception as e:
